@@ -26,8 +26,10 @@ def lcm(a, b):
 
 
 class PartRef(object):
-    def __init__(self, spec):
+    def __init__(self, spec, musical=None):
+        """musical: None (notated beats) or a dict {"6/8": n} given to Part.use_musical_beat"""
         self.spec = spec
+        self.musical = musical
         self.divs = [list(x) for x in spec.get("divs", [[0, 1]])]
         objs = spec.get("objs", [])
         self.notes = [o for o in objs if o["k"] in ("note", "grace")]
@@ -49,6 +51,27 @@ class PartRef(object):
                 cur = bt
         return cur
 
+    def _mus_of(self, b, bt, mus):
+        if self.musical is not None:
+            key = "%d/%d" % (b, bt)
+            if key in self.musical:
+                return self.musical[key]
+        return mus if mus is not None else MUSICAL_BEATS.get(b, b)
+
+    def _factor(self, a):
+        """beats per quarter on the stretch starting at a"""
+        cur = None
+        for s, _, b, bt, mus in self.ts:
+            if s <= a:
+                cur = (b, bt, mus)
+        if cur is None:
+            return Fraction(1)
+        b, bt, mus = cur
+        f = Fraction(bt, 4)
+        if self.musical is not None:
+            f *= Fraction(self._mus_of(b, bt, mus), b)
+        return f
+
     def raw(self, t, unit):
         """exact quarters ('q') or beats ('b') between the first point and t (no pickup shift)"""
         t0 = self.first
@@ -60,9 +83,7 @@ class PartRef(object):
         cuts = sorted(cuts)
         tot = Fraction(0)
         for a, b in zip(cuts, cuts[1:]):
-            bt = self._bt_at(a)
-            f = Fraction(bt, 4) if bt is not None else Fraction(1)
-            tot += f * Fraction(b - a, qdur_at(self.divs, a))
+            tot += self._factor(a) * Fraction(b - a, qdur_at(self.divs, a))
         return tot
 
     def pickup(self):
@@ -81,7 +102,12 @@ class PartRef(object):
             return Fraction(0)
         end, (_, _, beats, bt, _m) = pk
         actual = self.raw(end, unit)
-        normal = Fraction(beats * 4, bt) if unit == "q" else Fraction(beats)
+        if unit == "q":
+            normal = Fraction(beats * 4, bt)
+        elif self.musical is not None:
+            normal = Fraction(self._mus_of(beats, bt, _m))
+        else:
+            normal = Fraction(beats)
         return actual if actual < normal else Fraction(0)
 
     def value(self, t, unit):
@@ -94,7 +120,7 @@ class PartRef(object):
         cur = None
         for s, _, b, bt, mus in self.ts:
             if s <= t:
-                cur = (b, bt, mus if mus is not None else MUSICAL_BEATS.get(b, b))
+                cur = (b, bt, self._mus_of(b, bt, mus))
         return cur
 
     def ks_at(self, t):
